@@ -168,6 +168,8 @@ def recv_case():
             _small(ctx, out_lvl, err_lvl)
             lo, le = _install(ctx, c, out_lvl, err_lvl)
             c.settimeout(0.0)
+            if ctx.flag("this-side-has-shut-down-its-own-sending-direction"):
+                c.eof_sent = True          # half-closed the other way round: the peer may still send and must still get credit
             src = err_lvl if stderr else out_lvl
             if not ctx.symbolic and src == 0:
                 ctx.cut("empty buffer: a real recv would wait for data")
